@@ -77,6 +77,13 @@ CHECKS.update({
             "DESIGN.md §4 C04"),
 })
 
+CHECKS.update({
+    "C06": ("simquic+sched", "panic catcher around every poll + quiescence-based hang oracle over adversarial peer scripts (bytecode shared with the fuzz target): faults injected at every step index of every scenario skeleton, grammar- and byte-level mutations, random scripts; both roles, whole and split streams",
+            "Tens of thousands of hostile scripts per run; every poll of every h3 future runs under catch_unwind with overflow checks and debug assertions on; at quiescence no call may wait on a stream the peer already finished/reset/stopped, and after the peer's connection close no h3 future may be pending. FIN/RESET/STOP_SENDING/close are injected at every step index of all 192 skeletons (complete). Held-on-observed.",
+            "Trusts the simulator's quiescence detection and the applications of sim/apps.rs as 'documented call pattern'.",
+            "DESIGN.md §4 C06"),
+})
+
 NOT_YET = {}
 
 def main():
